@@ -126,11 +126,11 @@ FUNCS_DEC = ['prophy.composite.struct._decode_impl', 'prophy.composite.union._de
              'prophy.scalar.numeric_decorator.decode', 'prophy.generators.enum_generator check']
 
 
-def run_value_checks(prop, tier, checks, t0=None, shape_filter=None, timeout=None, cap=None):
+def run_value_checks(prop, tier, checks, t0=None, shape_filter=None, timeout=None, cap=None, family_tier=None):
     t0 = t0 or time.time()
-    work = C.workdir(prop)
+    work = C.workdir(prop + '-py' if family_tier else prop)
     W.self_check()
-    ftier = 'rich' if tier == 'quick' else tier
+    ftier = family_tier or ('rich' if tier == 'quick' else tier)
     fam = prepare_family(ftier, work)
     timeout = timeout or (60 if tier == 'quick' else 300)
     cap = cap or (4 if tier == 'quick' else 12)
